@@ -91,11 +91,22 @@ class State:
         return s
 
 
+def _no_inline():
+    import json, os
+
+    try:
+        d = json.load(open(os.path.join(F.VERIF, "spec", "sanitisers.json")))
+        return {e["fn"] for e in d["sanitisers"]}
+    except OSError:
+        return set()
+
+
 class Interp:
     def __init__(self, facts, scope_of=None):
         self.f = facts
         self.depth = 0
         self.maxdepth = 12
+        self.no_inline = _no_inline()
 
     # -------------------------------------------------------------- helpers
     def payload_type(self, enum, variant, idx):
@@ -524,7 +535,7 @@ class Interp:
 
     def call_fn(self, key, argv, st, callnode, self_val=None):
         fn = self.f.fns.get(key)
-        if fn is None or self.depth >= self.maxdepth:
+        if fn is None or self.depth >= self.maxdepth or key in self.no_inline:
             return [(st, H("call", src(callnode), callee=key, args=argv))]
         out_ty = norm_ty(fn.node["output"])
         inline = (
@@ -981,9 +992,8 @@ def skeleton(facts):
         if p[0] == "c":
             text += p[1]
         elif p[0] == "h":
-            name = p[1].get("src") or "?"
             holes.append(p[1])
-            text += "{%s}" % name
+            text += "{%s}" % canon(p[1])
         else:
             text += "{?}"
     out = {"parts": parts, "text": text, "holes": holes, "unknown": st.unknown}
